@@ -159,6 +159,7 @@ def run_c09(case):
             twin, sp2 = build(case, False)
             missing = twin.load_state_dict(net.state_dict(), strict=True)
             current = None      # specs of the most recently fixed function(s)
+            last_tensor_arg = None
             for op in case["history"]:
                 kind = op["op"]
                 if kind == "fix" or (kind == "forward" and op.get("with_branch")):
@@ -180,6 +181,20 @@ def run_c09(case):
                         arg = function_set(case, sp, specs)
                     else:
                         arg = collection(case, sp, specs, op.get("parts", 2))
+                    if kind == "forward" and op.get("reuse") and last_tensor_arg is not None:
+                        # the SAME object as in the previous forward(..., branch_inputs=...) call, modified in place in
+                        # between (users refill one buffer): the branch must see the current content
+                        arg, old_specs, old_how = last_tensor_arg
+                        f_ = float(op.get("scale", 1.5))
+                        t_ = arg._t if hasattr(arg, "_t") else arg
+                        with torch.no_grad():
+                            t_.mul_(f_)
+                        specs = [dict(s_, a=s_["a"] * f_, c=s_["c"] * f_) for s_ in old_specs]
+                        how = old_how
+                        op = dict(op, how=how)
+                        last_tensor_arg = (arg, specs, how)
+                    elif kind == "forward" and how in ("tensor2d", "tensor3d", "points"):
+                        last_tensor_arg = (arg, specs, how)
                     if kind == "fix":
                         net.fix_branch_input(arg)
                         twin.fix_branch_input(arg if how not in ("functionset", "collection") else (
